@@ -319,7 +319,7 @@ PROPS = {
                 # emission: every frame the library writes on a serial link (server replies incl.
                 # exception replies, client requests) and its acceptance by the peer's rule
                 dict(gen="srv_rtu", n=(1200, 80000)), dict(gen="cl_enc", n=(300, 20000)),
-                dict(gen="cl_task", n=(400, 30000))],
+                dict(gen="cl_task", n=(400, 30000)), dict(gen="pty_srv", n=(60, 800), jobs=16), dict(gen="pty_cli", n=(60, 800), jobs=16)],
         level_text="Proof: CRC-16/MODBUS algebra on the bit-serial register (linearity, injectivity on 16-bit values, order of x) "
                    "gives burst_detected (<=16 bits), single_bit_detected, double_bit_detected (frames up to 2100 bits) and the bridge "
                    "crc_trailer_zero_iff; format_crc/format_len_le (emitted frames carry the right CRC, <= 256 bytes); accept_sound (a frame "
@@ -344,7 +344,7 @@ PROPS = {
                            "Rodbus.C14.disconnect_is_min", "Rodbus.C14.no_overflow", "Rodbus.C14.delay_le_max"],
         suites=[dict(gen="retry", n=(4000, 300000),
                      exhaustive="11x11 lattice of special (min,max) durations incl. 0, Duration::MAX, MAX/2, MAX/2+1"),
-                dict(gen="life", n=(20, 1200), jobs=16), dict(gen="slife", n=(8, 300), jobs=8)],
+                dict(gen="life", n=(20, 1200), jobs=16), dict(gen="slife", n=(8, 300), jobs=8), dict(gen="pty_cli", n=(10, 200), jobs=16)],
         extra_oracle=lambda c, i: life_oracle(c, i) if c.startswith("life ") else None,
         level_text="Proof: kth_delay (by induction on the call sequence, for all (min,max) with max representable and all k: the k-th "
                    "consecutive after_failed_connect since creation/reset returns min*2^(k-1) capped at max), disconnect_is_min, "
@@ -482,7 +482,7 @@ PROPS = {
         required_theorems=["Rodbus.C17.silent_unless_addressed", "Rodbus.C17.broadcast_write", "Rodbus.C17.broadcast_read_ignored",
                            "Rodbus.C17.broadcast_never_answered", "Rodbus.C17.unit0_ordinary_on_tcp",
                            "Rodbus.C17.silent_unless_addressed_or_denied", "Rodbus.C17.denied_answered_even_if_unconfigured"],
-        suites=[dict(gen="srv_rtu", n=(3000, 200000)), dict(gen="srv_tcp", n=(800, 50000)), dict(gen="srv_auth", n=(600, 50000))],
+        suites=[dict(gen="srv_rtu", n=(3000, 200000)), dict(gen="srv_tcp", n=(800, 50000)), dict(gen="srv_auth", n=(600, 50000)), dict(gen="pty_srv", n=(120, 1500), jobs=16)],
         level_text="Proof: silent_unless_addressed (for EVERY pdu - valid, failing in the handler or malformed - a frame for an unconfigured, "
                    "non-broadcast address yields no reply and no call), broadcast_write (RTU destination 0, valid write => exactly one write call per "
                    "configured unit in ascending order, results ignored, no reply), broadcast_never_answered (not even exceptions, also when "
@@ -504,7 +504,7 @@ PROPS = {
         suites=[dict(gen="tls", n=(0, 0), jobs=16,
                      exhaustive="thorough: the full grid {min 1.2,1.3} x {authority,self-signed} x {authz,no authz} x {client,server} x peer "
                                 "versions {1.2,1.3,both} x certificate kinds incl. certificate lists and IP-literal expected names (336 handshakes); quick: all "
-                                "version cells with valid certificates + half of the certificate kinds + every certificate-list and IP-name cell (about 75 handshakes)")],
+                                "version cells with valid certificates + half of the certificate kinds + every certificate-list and IP-name cell (about 75 handshakes)"), dict(gen="role", n=(0, 0))],
         level_text="Proof (rodbus's own logic): versions_correct (a version is enabled iff it is >= the configured minimum) and tls_table_correct "
                    "(the MinTlsVersion -> ProtocolVersions table regenerated from tcp/tls/client.rs equals the model's), admit_iff / "
                    "client_admit_iff (a session exists iff the peer offers a version >= min, its certificate validates under the configured mode "
@@ -516,11 +516,13 @@ PROPS = {
                    "self-signed, a second certificate with another role after the end entity, IP-literal expected names with and without IP SAN); observed: handshake outcome, negotiated version, role string seen by the authorization handler, handler calls.",
         level_note="Partial: certificate path validation, signature and validity checks, name matching and version negotiation are done by "
                    "rustls / webpki / sfio-rustls-config; in the theorems they are attributes of the presented certificate and the rule 'highest "
-                   "common version'; they are exercised by the grid, not proved. A certificate with two role extensions could not be minted with "
-                   "the openssl CLI and is covered by the theorem only. Trusted: openssl 3.5 CLI as independent peer; certificates in /verif/certs "
+                   "common version'; they are exercised by the grid, not proved. Certificates with 0, 1, 2 or 3 role extensions are built by DER "
+                   "surgery (tools/der.py; the openssl CLI cannot mint duplicates) and run through the production role extraction (suite role). Trusted: openssl 3.5 CLI as independent peer; certificates in /verif/certs "
                    "(tools/mint_certs.sh), valid until 2070.",
         technique="Lean 4 proof of the admission logic + generated version table + handshake grid against openssl peers",
-        classify=lambda c, i: [i.split(" ")[0], " ".join(c.split(" ")[1:4])],
+        classify=lambda c, i: (["role extensions=%d" % (0 if c.split(" ")[1] == "-" else len(c.split(" ")[1].split("/"))),
+                                "role " + i.split("=")[0]] if c.startswith("role ")
+                               else [i.split(" ")[0], " ".join(c.split(" ")[1:4])]),
         nontrivial=lambda c, i: True, finding_key=no_key,
         rule="cases = corpus (witnesses of the repaired version table first) + the grid; every handshake is non-trivial; distinct = distinct case line",
         assumptions=["system clock between 2021 and 2069 (expired / not-yet-valid test certificates)",
@@ -744,7 +746,7 @@ PROPS = {
                            "Rodbus.Client.drained_exactly_once", "Rodbus.Client.error_meaning_noconn", "Rodbus.Client.error_meaning_timeout",
                            "Rodbus.Client.error_meaning_transport", "Rodbus.Client.error_meaning_shutdown_task",
                            "Rodbus.Client.error_meaning_shutdown_partial", "Rodbus.Client.drain_completes_partial"],
-        suites=[dict(gen="cl_task", n=(1200, 120000), corpus=["cl"]), dict(gen="cl_block", n=(150, 5000))],
+        suites=[dict(gen="cl_task", n=(1200, 120000), corpus=["cl"]), dict(gen="cl_block", n=(150, 5000)), dict(gen="pty_cli", n=(60, 600), jobs=16)],
         extra_oracle=cl_task_oracle,
         level_text="Proof over the client-task model (queue, handles, one-in-flight transaction engine, phases, promises with Drop) for EVERY step "
                    "sequence, queue capacity, timeout limit, framing and every resolution of tokio::select! races (scheduler coins are universally "
